@@ -61,6 +61,39 @@ func init() {
 		}
 		return transform.GetExtendedSpatialIdsWithinRadiusOfLine(s, e, atof(a[6]), atoi(a[7]), atoi(a[8]), a[9] == "1")
 	}
+	// fit: the exported clearance fit on its own (error paths: malformed ID, negative clearance); args: id, "1" if clearance < 0
+	op("fit", func(a []string) string {
+		c := 1.5
+		if a[1] == "1" {
+			c = -1.5
+		}
+		return withTimeout(20*time.Second, func() string {
+			h, v, err := transform.FitClearanceAroundExtendedSpatialID(a[0], c)
+			if err != nil {
+				return "ERR"
+			}
+			return fmt.Sprintf("%d:%d", h, v)
+		})
+	})
+	register("fit", func(n int) {
+		for i := 0; i < n; i++ {
+			h := int64(10 + rng.Intn(14))
+			v := int64(10 + rng.Intn(16))
+			e := ext{h, randIdx(h), pow2(h)/4 + rng.Int63n(pow2(h)/2), v, int64(rng.Intn(9) - 4)}
+			id := e.id()
+			switch rng.Intn(4) {
+			case 0:
+				id = malformed(id)
+			case 1:
+				id = zoomFieldOut([]string{id})[0]
+			}
+			neg := "0"
+			if rng.Intn(6) == 0 {
+				neg = "1"
+			}
+			do("fit", id, neg)
+		}
+	})
 	// corridor: sLon sLat sAlt eLon eLat eAlt radius h v skips | oracles: line fit close neg
 	op("corridor", func(a []string) string {
 		return withTimeout(60*time.Second, func() string { return setOrErr(call(a)) })
